@@ -17,6 +17,9 @@ CONSTANTS Subs,      \* field / member ids
           RNow,      \* the reader's clock tick used for the graph's read edges
           MaxLen,    \* cap on string / list lengths
           MaxNum,    \* cap on |numeric values| and scores
+          FullKeys,  \* keys that take the full command set; the other keys take a few basic
+                     \* commands only (they are there for cross-key interference), which keeps
+                     \* the graph small enough to be walked edge by edge
           Dup        \* TRUE: commands may repeat a field/member (known finding dup-args kept
                      \* out of the general corpus by Dup = FALSE)
 
@@ -32,8 +35,21 @@ Small(d) == \A k \in Keys :
   /\ Len(d.ls[k].q) <= MaxLen
   /\ \A m \in DOMAIN d.zs[k].sc : d.zs[k].sc[m] <= MaxNum /\ d.zs[k].sc[m] >= 0 - MaxNum
 
+V1 == CHOOSE v \in VIds : TRUE
+X1 == CHOOSE x \in Subs : TRUE
 Nx(name, k, a, t) == Do(db, Cmd(name, k, a), t, RNow)
-Ok(name, k, a, t) == Nx(name, k, a, t).r # ROut /\ Small(Nx(name, k, a, t).db)
+Failed(r) == r = RErr \/ r = ROut
+\* two model theorems are checked on every transition TLC takes (cheaper than quantifying
+\* over all commands in every state): a failing command changes nothing, and a command
+\* changes only the records of its own type under the keys it names
+ErrorChangesNothing(d0, c, d) == Failed(d.r) => d.db = d0
+KeysIndependent(d0, c, d) == \A ty \in TyLetters, k \in Keys :
+                                (ty # TyOf(c) \/ k \notin KeysOf(c)) => RecOf(d.db, ty, k) = RecOf(d0, ty, k)
+StepOK(c, t) == LET d == Do(db, c, t, RNow)
+                IN /\ d.r # ROut /\ Small(d.db)
+                   /\ Assert(ErrorChangesNothing(db, c, d), <<"ErrorChangesNothing", c, t>>)
+                   /\ Assert(KeysIndependent(db, c, d), <<"KeysIndependent", c, t>>)
+Ok(name, k, a, t) == StepOK(Cmd(name, k, a), t)
 DupOk(x, y) == Dup \/ x # y
 
 -----------------------------------------------------------------------------
@@ -55,7 +71,10 @@ Persist(k, t)       == Ok("persist", k, <<>>, t) /\ db' = Nx("persist", k, <<>>,
 
 RIdx == {-1, 0, 1}
 NextKV ==
-  \/ \E k \in Keys, t \in Times :
+  \/ \E k \in Keys \ FullKeys, t \in Times :
+       \/ Set(k, V1, t) \/ Del(k, t)
+       \/ \E d \in Durs : SetEx(k, d, V1, t) \/ Expire(k, d, t)
+  \/ \E k \in FullKeys, t \in Times :
        \/ Incr(k, t) \/ Del(k, t) \/ Persist(k, t)
        \/ \E v \in VIds : Set(k, v, t) \/ SetNx(k, v, t) \/ GetSet(k, v, t) \/ AppendV(k, v, t)
        \/ \E v \in VIds, d \in Durs : SetEx(k, d, v, t)
@@ -80,7 +99,10 @@ HExpire(k, d, t)    == Ok("hexpire", k, <<d>>, t) /\ db' = Nx("hexpire", k, <<d>
 HPersist(k, t)      == Ok("hpersist", k, <<>>, t) /\ db' = Nx("hpersist", k, <<>>, t).db
 
 NextH ==
-  \/ \E k \in Keys, t \in Times :
+  \/ \E k \in Keys \ FullKeys, t \in Times :
+       \/ HSet(k, X1, V1, t) \/ HClear(k, t)
+       \/ \E d \in Durs : HExpire(k, d, t)
+  \/ \E k \in FullKeys, t \in Times :
        \/ HClear(k, t) \/ HPersist(k, t)
        \/ \E f \in Subs, v \in VIds : HSet(k, f, v, t) \/ HSetNx(k, f, v, t)
        \/ \E f, g \in Subs, v, w \in VIds : DupOk(f, g) /\ HMSet(k, f, v, g, w, t)
@@ -105,7 +127,10 @@ LPersist(k, t)      == Ok("lpersist", k, <<>>, t) /\ db' = Nx("lpersist", k, <<>
 
 LIdx == {-4, -2, -1, 0, 1, 3}
 NextL ==
-  \/ \E k \in Keys, t \in Times :
+  \/ \E k \in Keys \ FullKeys, t \in Times :
+       \/ RPush(k, V1, t) \/ LPop(k, t)
+       \/ \E d \in Durs : LExpire(k, d, t)
+  \/ \E k \in FullKeys, t \in Times :
        \/ LPop(k, t) \/ RPop(k, t) \/ LClear(k, t) \/ LPersist(k, t)
        \/ \E v \in VIds : LPush(k, v, t) \/ RPush(k, v, t)
        \/ \E v, w \in VIds : LPush2(k, v, w, t) \/ RPush2(k, v, w, t)
@@ -127,7 +152,10 @@ SExpire(k, d, t)    == Ok("sexpire", k, <<d>>, t) /\ db' = Nx("sexpire", k, <<d>
 SPersist(k, t)      == Ok("spersist", k, <<>>, t) /\ db' = Nx("spersist", k, <<>>, t).db
 
 NextS ==
-  \/ \E k \in Keys, t \in Times :
+  \/ \E k \in Keys \ FullKeys, t \in Times :
+       \/ SAdd(k, X1, t) \/ SClear(k, t)
+       \/ \E d \in Durs : SExpire(k, d, t)
+  \/ \E k \in FullKeys, t \in Times :
        \/ SPop(k, t) \/ SClear(k, t) \/ SPersist(k, t)
        \/ \E m \in Subs : SAdd(k, m, t) \/ SRem(k, m, t)
        \/ \E m, n \in Subs : DupOk(m, n) /\ (SAdd2(k, m, n, t) \/ SRem2(k, m, n, t))
@@ -155,7 +183,10 @@ ZIdx == {-3, -1, 0, 1}
 ZIv == {<<0, 2, 0, 2>>, <<2, 0, 3, 0>>, <<2, 1, 3, 0>>, <<2, 0, 3, 1>>, <<3, 0, 2, 0>>, <<2, 1, 0, 2>>}
 LexIv == {<<0, 2, 0, 2>>, <<1, 0, 2, 0>>, <<1, 1, 2, 0>>, <<1, 0, 2, 1>>, <<2, 0, 1, 0>>, <<1, 1, 0, 2>>}
 NextZ ==
-  \/ \E k \in Keys, t \in Times :
+  \/ \E k \in Keys \ FullKeys, t \in Times :
+       \/ ZAdd(k, 2, X1, t) \/ ZClear(k, t)
+       \/ \E d \in Durs : ZExpire(k, d, t)
+  \/ \E k \in FullKeys, t \in Times :
        \/ ZClear(k, t) \/ ZPersist(k, t)
        \/ \E s \in ZScores, m \in Subs : ZAdd(k, s, m, t)
        \/ \E s, s2 \in ZScores, m, m2 \in Subs : DupOk(m, m2) /\ ZAdd2(k, s, m, s2, m2, t)
@@ -225,35 +256,33 @@ AllCmds == CmdsKV \cup CmdsH \cup CmdsL \cup CmdsS \cup CmdsZ
 CmdsLD == CmdsKV \cup CmdsH
 CONSTANT TCmds
 Nows == Times \cup {RNow}
-Failed(r) == r = RErr \/ r = ROut
 
-ErrorChangesNothing ==
-  \A c \in TCmds, t \in Times : LET d == Do(db, c, t, RNow) IN Failed(d.r) => d.db = db
+TT == {TyOf(c) : c \in TCmds}       \* type letters under check in this instance
+
 ReadsChangeNothing ==
-  \A c \in TCmds, now \in Nows : c.c \in ReadCmds => Do(db, c, 0, now).db = db
-KeysIndependent ==
-  \A c \in TCmds, t \in Times :
-     LET d == Do(db, c, t, RNow).db
-     IN \A ty \in TyLetters, k \in Keys :
-          (ty # TyOf(c) \/ k \notin KeysOf(c)) => RecOf(d, ty, k) = RecOf(db, ty, k)
+  \A c \in TCmds : c.c \in ReadCmds => Do(db, c, 0, RNow).db = db
 \* C09 on the model: every way of counting / enumerating a collection agrees
 R(n, k, a, now) == Reply(db, C(n, k, a), 0, now)
 CountsAgree ==
   \A k \in Keys, now \in Nows :
-    /\ LET n == R("hlen", k, <<>>, now)[2]
+    /\ "h" \in TT =>
+       LET n == R("hlen", k, <<>>, now)[2]
        IN /\ R("hgetall", k, <<>>, now)[2] = n /\ R("hkeys", k, <<>>, now)[2] = n /\ R("hvals", k, <<>>, now)[2] = n
           /\ R("hkeyexist", k, <<>>, now) = RInt(IF n > 0 THEN 1 ELSE 0)
           /\ n = Cardinality({f \in Subs : R("hexists", k, <<f>>, now) = RInt(1)})
           /\ \A f \in Subs : (R("hexists", k, <<f>>, now) = RInt(1)) <=> (R("hget", k, <<f>>, now) # RNil)
-    /\ LET n == R("scard", k, <<>>, now)[2]
+    /\ "s" \in TT =>
+       LET n == R("scard", k, <<>>, now)[2]
        IN /\ R("smembers", k, <<>>, now)[2] = n
           /\ R("skeyexist", k, <<>>, now) = RInt(IF n > 0 THEN 1 ELSE 0)
           /\ n = Cardinality({m \in Subs : R("sismember", k, <<m>>, now) = RInt(1)})
-    /\ LET n == R("llen", k, <<>>, now)[2]
+    /\ "l" \in TT =>
+       LET n == R("llen", k, <<>>, now)[2]
        IN /\ R("lrange", k, <<0, -1>>, now)[2] = n
           /\ R("lkeyexist", k, <<>>, now) = RInt(IF n > 0 THEN 1 ELSE 0)
           /\ \A i \in 0..(MaxLen + 2) : (R("lindex", k, <<i>>, now) # RNil) <=> i < n
-    /\ LET n == R("zcard", k, <<>>, now)[2]
+    /\ "z" \in TT =>
+       LET n == R("zcard", k, <<>>, now)[2]
        IN /\ R("zrange", k, <<0, -1>>, now)[2] = n /\ R("zrevrange", k, <<0, -1>>, now)[2] = n
           /\ R("zrangebyscore", k, <<0, 2, 0, 2>>, now)[2] = n
           /\ R("zrangebylex", k, <<0, 2, 0, 2>>, now)[2] = n
@@ -265,8 +294,8 @@ CountsAgree ==
 \* C10 on the model ("wc")
 W(n, k, a, t) == Do(db, C(n, k, a), t, t)
 ExpiredIsDead == Policy = "wc" =>
-  \A k \in Keys, t \in Times, v \in VIds, x \in Subs :
-    /\ Dead(db.kv[k], t) =>
+  \A k \in Keys, t \in Times : LET v == V1  x == X1 IN
+    /\ ("k" \in TT /\ Dead(db.kv[k], t)) =>
          /\ W("get", k, <<>>, t).r = RNil /\ W("strlen", k, <<>>, t).r = RInt(0) /\ W("exists", k, <<>>, t).r = RInt(0)
          /\ W("ttl", k, <<>>, t).r = RInt(-1)
          /\ W("append", k, <<v>>, t).r = RInt(Len(Val(v))) /\ W("append", k, <<v>>, t).db.kv[k].v = Val(v)
@@ -274,29 +303,29 @@ ExpiredIsDead == Policy = "wc" =>
          /\ W("getset", k, <<v>>, t).r = RNil /\ W("del", k, <<>>, t).r = RInt(0)
          /\ W("expire", k, <<1>>, t).r = RInt(0) /\ W("persist", k, <<>>, t).r = RInt(0)
          /\ W("setrange", k, <<1, v>>, t).r \in {RInt(0), RInt(1 + Len(Val(v)))}
-    /\ Dead(db.hs[k], t) =>
+    /\ ("h" \in TT /\ Dead(db.hs[k], t)) =>
          /\ W("hlen", k, <<>>, t).r = RInt(0) /\ W("hget", k, <<x>>, t).r = RNil /\ W("hkeyexist", k, <<>>, t).r = RInt(0)
          /\ W("hset", k, <<x, v>>, t).r = RInt(1) /\ W("hdel", k, <<x>>, t).r = RInt(0)
          /\ W("hincrby", k, <<x, 1>>, t).r = RInt(1) /\ W("hclear", k, <<>>, t).r = RInt(0)
          /\ W("hexpire", k, <<1>>, t).r = RInt(0)
-    /\ Dead(db.ls[k], t) =>
+    /\ ("l" \in TT /\ Dead(db.ls[k], t)) =>
          /\ W("llen", k, <<>>, t).r = RInt(0) /\ W("lpush", k, <<v>>, t).r = RInt(1) /\ W("rpush", k, <<v>>, t).r = RInt(1)
          /\ W("lpop", k, <<>>, t).r = RNil /\ W("rpop", k, <<>>, t).r = RNil /\ W("lset", k, <<0, v>>, t).r = RErr
          /\ W("lclear", k, <<>>, t).r = RInt(0)
-    /\ Dead(db.st[k], t) =>
+    /\ ("s" \in TT /\ Dead(db.st[k], t)) =>
          /\ W("scard", k, <<>>, t).r = RInt(0) /\ W("sadd", k, <<x>>, t).r = RInt(1) /\ W("srem", k, <<x>>, t).r = RInt(0)
          /\ W("spop", k, <<>>, t).r = RNil /\ W("sclear", k, <<>>, t).r = RInt(0)
-    /\ Dead(db.zs[k], t) =>
+    /\ ("z" \in TT /\ Dead(db.zs[k], t)) =>
          /\ W("zcard", k, <<>>, t).r = RInt(0) /\ W("zadd", k, <<2, x>>, t).r = RInt(1) /\ W("zrem", k, <<x>>, t).r = RInt(0)
          /\ W("zincrby", k, <<1, x>>, t).r = RScore(1) /\ W("zclear", k, <<>>, t).r = RInt(0)
+PersistName(ty) == CASE ty = "k" -> "persist" [] ty = "h" -> "hpersist" [] ty = "l" -> "lpersist" [] ty = "s" -> "spersist" [] ty = "z" -> "zpersist"
 OverwriteClearsExpiry ==
-  \A k \in Keys, t \in Times, v \in VIds :
-    /\ W("set", k, <<v>>, t).db.kv[k].exp = 0 /\ W("getset", k, <<v>>, t).db.kv[k].exp = 0
-    /\ \A k2 \in Keys : W("mset", k, <<v, k2, v>>, t).db.kv[k].exp = 0 /\ W("mset", k, <<v, k2, v>>, t).db.kv[k2].exp = 0
-    /\ Policy = "wc" => /\ W("persist", k, <<>>, t).db.kv[k].exp \in {0} \cup {e \in {db.kv[k].exp} : e <= t}
-                        /\ \A ty \in {"h", "l", "s", "z"} : LET n == CASE ty = "h" -> "hpersist" [] ty = "l" -> "lpersist" [] ty = "s" -> "spersist" [] ty = "z" -> "zpersist"
-                                                               e == Coll(W(n, k, <<>>, t).db, ty, k).exp
-                                                           IN e = 0 \/ (e = Coll(db, ty, k).exp /\ e <= t)
+  \A k \in Keys, t \in Times : LET v == V1 IN
+    /\ "k" \in TT =>
+        /\ W("set", k, <<v>>, t).db.kv[k].exp = 0 /\ W("getset", k, <<v>>, t).db.kv[k].exp = 0
+        /\ \A k2 \in Keys : W("mset", k, <<v, k2, v>>, t).db.kv[k].exp = 0 /\ W("mset", k, <<v, k2, v>>, t).db.kv[k2].exp = 0
+    /\ Policy = "wc" => \A ty \in TT : LET e == RecOf(W(PersistName(ty), k, <<>>, t).db, ty, k).exp
+                                      IN e = 0 \/ (e = RecOf(db, ty, k).exp /\ e <= t)
 ModifyCmds(k, v, x) ==
   {C("append", k, <<v>>), C("incr", k, <<>>), C("setrange", k, <<1, v>>), C("setnx", k, <<v>>),
    C("hset", k, <<x, v>>), C("hsetnx", k, <<x, v>>), C("hmset", k, <<x, v, x, v>>), C("hincrby", k, <<x, 1>>), C("hdel", k, <<x>>),
@@ -305,24 +334,26 @@ ModifyCmds(k, v, x) ==
    C("zadd", k, <<2, x>>), C("zincrby", k, <<1, x>>), C("zrem", k, <<x>>), C("zremrangebyrank", k, <<0, 0>>)}
 Present(d, ty, k) == IF ty = "k" THEN d.kv[k].has ELSE ~CEmpty(ty, Coll(d, ty, k))
 ModifyKeepsExpiry ==
-  \A k \in Keys, t \in Times, v \in VIds, x \in Subs : \A c \in ModifyCmds(k, v, x) :
+  \A k \in Keys, t \in Times : \A c \in {m \in ModifyCmds(k, V1, X1) : TyOf(m) \in TT} :
      LET ty  == TyOf(c)
          old == RecOf(db, ty, k)
          d   == Do(db, c, t, t)
          new == RecOf(d.db, ty, k)
      IN (old.exp # 0 /\ ~Dead(old, t) /\ ~Failed(d.r) /\ Present(d.db, ty, k)) => new.exp = old.exp
 NewGenerationIsEmpty ==
-  \A k \in Keys, t \in Times, v \in VIds, x \in Subs :
-    /\ Dead(db.hs[k], t) => W("hset", k, <<x, v>>, t).db.hs[k] = [HNil EXCEPT !.f = Upd(EmptyF, x, Val(v))]
-    /\ Dead(db.ls[k], t) => W("lpush", k, <<v>>, t).db.ls[k] = [LNil EXCEPT !.q = <<Val(v)>>]
-    /\ Dead(db.st[k], t) => W("sadd", k, <<x>>, t).db.st[k] = [SNil EXCEPT !.m = {x}]
-    /\ Dead(db.zs[k], t) => W("zadd", k, <<2, x>>, t).db.zs[k] = [ZNil EXCEPT !.sc = Upd(EmptyF, x, 2)]
-    /\ \A ty \in {"h", "l", "s", "z"} : LET r == Coll(db, ty, k) IN CEmpty(ty, r) => r.exp = 0
+  \A k \in Keys, t \in Times : LET v == V1  x == X1 IN
+    /\ ("h" \in TT /\ Dead(db.hs[k], t)) => W("hset", k, <<x, v>>, t).db.hs[k] = [HNil EXCEPT !.f = Upd(EmptyF, x, Val(v))]
+    /\ ("l" \in TT /\ Dead(db.ls[k], t)) => W("lpush", k, <<v>>, t).db.ls[k] = [LNil EXCEPT !.q = <<Val(v)>>]
+    /\ ("s" \in TT /\ Dead(db.st[k], t)) => W("sadd", k, <<x>>, t).db.st[k] = [SNil EXCEPT !.m = {x}]
+    /\ ("z" \in TT /\ Dead(db.zs[k], t)) => W("zadd", k, <<2, x>>, t).db.zs[k] = [ZNil EXCEPT !.sc = Upd(EmptyF, x, 2)]
+    /\ \A ty \in TT \ {"k"} : LET r == Coll(db, ty, k) IN CEmpty(ty, r) => r.exp = 0
 TTLIsRemaining == Policy = "wc" =>
-  \A k \in Keys, now \in Nows :
-    LET r == KVLive(db.kv[k], now)
-    IN /\ (r.has /\ r.exp # 0) => (R("ttl", k, <<>>, now) = RInt(r.exp - now) /\ r.exp - now > 0)
-       /\ (~r.has \/ r.exp = 0) => R("ttl", k, <<>>, now) = RInt(-1)
+  \A k \in Keys, now \in Nows : \A ty \in TT :
+    LET r == RecOf(db, ty, k)
+        alive == ~Dead(r, now) /\ Present(db, ty, k)
+        nm == CASE ty = "k" -> "ttl" [] ty = "h" -> "httl" [] ty = "l" -> "lttl" [] ty = "s" -> "sttl" [] ty = "z" -> "zttl"
+    IN /\ (alive /\ r.exp # 0) => (R(nm, k, <<>>, now) = RInt(r.exp - now) /\ r.exp - now > 0)
+       /\ (~alive \/ r.exp = 0) => R(nm, k, <<>>, now) = RInt(-1)
 \* local deletion: commands never look at expiries, the scan never removes early
 LocalDeletion == Policy = "ld" =>
   /\ \A k \in Keys : db.kv[k].exp = 0 /\ db.hs[k].exp = 0
